@@ -10,3 +10,8 @@ import SfModel.AdpcmSpec
 import SfModel.FormatCheck
 import SfModel.Generated.FormatLists
 import SfModel.Command
+import SfModel.HeaderCache
+import SfModel.OpenGate
+import SfModel.ReadWrap
+import SfModel.ChunkQuery
+import SfModel.SdsScan
